@@ -121,4 +121,36 @@ PROPS = {
         thorough=dict(budget_s=1500, profiles=[P("C17", 30000)]),
         reach=["c17_rejected", "c17_near_limit"],
     ),
+    "C15": dict(
+        level="fault_enumeration",
+        rule="pipelines of 1-12 single/split requests from 1-3 clients; one fault per run (thorough: up to three): backend connection FIN/RST before the "
+             "fragment is read / after it is read / after k reply bytes, node down then up, or a slot range moved to a node the proxy does not know; "
+             "thorough enumerates fault phase x affected position x request kind for pipelines <= 6; request timeout 0 and >0; oracle (fair settle phase "
+             "after the last fault): every request has a reply (data or error) or its client connection was closed by the proxy, data replies are "
+             "still right, a client connecting after the fault is served over a new connection; non-trivial = a fault actually fired",
+        quick=dict(budget_s=80, profiles=[P("C15", 500)]),
+        thorough=dict(budget_s=1500, profiles=[P("C15", 10000), P("C15", 3000, "multi"), P("C15", 0, enumerate=["enum:%d" % i for i in range(3 * 6 * 6 * 3)])]),
+        reach=["c15_faults", "backend_conn_killed"],
+    ),
+    "C13": dict(
+        level="exploration",
+        rule="the proxy holds a converged view that the model makes stale: slots handed to another known master (MOVED) and slots in migration with a "
+             "seeded subset of keys already moved (ASK, importing node insists on ASKING), hit by single-key requests and by fragments of split "
+             "requests at seeded pipeline positions while all nodes keep reporting the old view; oracle: client gets exactly the final owner's reply "
+             "in position, no fragment is redirected more than 16 times; non-trivial = at least one redirect was answered",
+        quick=dict(budget_s=80, profiles=[P("C13", 400)]),
+        thorough=dict(budget_s=1500, profiles=[P("C13", 8000), P("C13", 3000, "moved"), P("C13", 3000, "ask")]),
+        reach=["c13_moved", "c13_ask"],
+    ),
+    "C03": dict(
+        level="exploration",
+        rule="2-6 concurrent clients with pipelines over shared infrastructure; clients disconnect (FIN/RST) with requests in flight, new clients connect "
+             "right after (object/fd reuse), topologies with unowned slot ranges and nodes refusing connections, multi-key requests straddling them, "
+             "request timeouts with stalled backends, backend connections killed mid-run; oracle: every delivered reply equals the token-matched backend "
+             "reply (or merge) for that client's request at that position or is a proxy error; missing replies are not this property's business; "
+             "non-trivial = an unroutable request, a client disconnect or a backend kill actually occurred",
+        quick=dict(budget_s=80, profiles=[P("C03", 600)]),
+        thorough=dict(budget_s=1800, profiles=[P("C03", 40000)]),
+        reach=["c03_unroutable_replies", "c03_client_disconnects", "backend_conn_killed"],
+    ),
 }
